@@ -15,6 +15,11 @@ CLAUSES = []
 ASSUMPTIONS = [
     "records are finite float64 (series / final-value also integer-dtype and list variants), 2 <= n <= 5000 "
     "(cav-dp: up to 13000 samples), |a| <= 1e9, dt in [1e-4, 2]",
+    "series / final-value hand the time step over as a Python float, np.float64, np.float32 or a 0-d array of either precision; "
+    "a single-precision step is taken at its exact double value (the step the caller supplied), so the defining integrals "
+    "use float(np.float32(dt))",
+    "final-value repeats every check after the object's own in-place corrections (zero residual velocity, displacement "
+    "rebasing, rolling-average removal on the record and on the velocity); which records a correction accepts is not asserted",
     "'v' in the statement is the object's velocity series (its correctness is C08); it is re-checked here against a "
     "long-double cumulative trapezoid of the record so that the velocity-based measures stay anchored to the record",
     "'rectangle sums' for the |a| and |v| integrals: the sum over all samples (what the code does), or the left or the right "
@@ -135,8 +140,26 @@ def _cases_basic(allow_int=True, max_n=5000):
             spec = draw(gen.record_specs(min_n=60000, max_n=150000, kinds=["noise", "quake", "walk", "sines"], allow_zero_runs=False))
         else:
             spec = draw(gen.record_specs(min_n=2, max_n=max_n, allow_int=allow_int))
-        return {"rec": spec, "dt": draw(gen.dts(1e-4, 2.0))}
+        # how the time step is handed over: Python float, NumPy scalar or 0-d array, double or single precision
+        # (a float32 step read from a binary header IS the step: the oracle uses its exact double value)
+        dtv = draw(st.sampled_from(["py", "py", "np64", "f32", "0d32", "0d64"]))
+        return {"rec": spec, "dt": draw(gen.dts(1e-4, 2.0)), "dtv": dtv}
     return cases()
+
+
+def _dt(case):
+    """-> (time step as handed to the library, its exact value as a Python float)."""
+    dt = case["dt"]
+    dtv = case.get("dtv", "py")
+    if dtv == "np64":
+        return np.float64(dt), dt
+    if dtv == "f32":
+        return np.float32(dt), float(np.float32(dt))
+    if dtv == "0d32":
+        return np.array(dt, dtype=np.float32), float(np.float32(dt))
+    if dtv == "0d64":
+        return np.array(dt, dtype=np.float64), dt
+    return dt, dt
 
 
 def _record(case):
@@ -174,11 +197,12 @@ def _series(ctx, fn, asig, name):
         require={"v-changes-sign": 0.1, "n>512": 0.05}, min_nontrivial=0.1)
 def series(case, ctx):
     arg, a = _record(case)
-    dt = case["dt"]
+    dt_arg, dt = _dt(case)
     n = len(a)
-    asig = ctx.lib(eqsig.AccSignal, arg, dt)
+    asig = ctx.lib(eqsig.AccSignal, arg, dt_arg)
     v = np.asarray(ctx.lib(lambda: asig.velocity), dtype=float)
     _classify(ctx, case["rec"], a, v)
+    ctx.cls("dt=" + case.get("dtv", "py"))
     got = {}
     for name, fn, _inp, _deg in MEASURES:
         s = _series(ctx, fn, asig, name)
@@ -208,28 +232,42 @@ def series(case, ctx):
         oracle="reference model: long-double panel sums of the defining quadratures (pi/(2*9.81)*trapz(a^2), trapz|a|, "
                "trapz(v^2), sum|a|dt, sum|v|dt, sum|d(0.5 v|v|)|), bound eps*(n+8)*sum|terms|; velocity vs long-double "
                "cumulative trapezoid of the record",
-        require={"v-changes-sign": 0.1, "n>512": 0.05}, min_nontrivial=0.1)
+        require={"v-changes-sign": 0.1, "n>512": 0.05, "dt=f32": 0.06, "after-rolling-average": 0.3}, min_nontrivial=0.1)
 def final_value(case, ctx):
     arg, a = _record(case)
-    dt = case["dt"]
+    dt_arg, dt = _dt(case)
     n = len(a)
-    asig = ctx.lib(eqsig.AccSignal, arg, dt)
+    asig = ctx.lib(eqsig.AccSignal, arg, dt_arg)
     v = np.asarray(ctx.lib(lambda: asig.velocity), dtype=float)
     _classify(ctx, case["rec"], a, v)
+    ctx.cls("dt=" + case.get("dtv", "py"))
     _final_checks(ctx, asig, a, dt, "")
     # the measures describe the record the signal holds NOW: repeat after the object's own in-place baseline corrections
     # (velocity and peaks were read above, so a stale cache would show)
     if n >= 3 and np.asarray(asig.values).dtype.kind == "f" and np.any(a) and np.all(np.abs(a) < 1e150):
-        for corr in ("set_zero_residual_velocity", "rebase_displacement"):
+        corrs = ["set_zero_residual_velocity", "rebase_displacement"]
+        if n <= 3000:
+            # rolling-average removal on the record itself / on the velocity (window of 3..9 samples), in a case-dependent order
+            w = 3 + (n % 7)
+            roll = [("remove_rolling_average", {"mtype": m, "freq_window": 1.0 / (dt * (w + 0.5))}) for m in ("acceleration", "velocity")]
+            k = n % 3
+            corrs = corrs[:k] + roll[:1] + corrs[k:] + roll[1:]
+        for corr in corrs:
+            kw = {}
+            if isinstance(corr, tuple):
+                corr, kw = corr
             try:
-                getattr(asig, corr)()
+                getattr(asig, corr)(**kw)
             except Exception:  # noqa  (which records a correction accepts is not C09's business)
                 break
+            if kw:
+                corr += "(%s)" % kw["mtype"]
+                ctx.cls("after-rolling-average")
             cur = np.array(asig.values, dtype=float)
             if not np.all(np.isfinite(cur)):
                 break
             ctx.cls("after-correction")
-            _final_checks(ctx, asig, cur, dt, " after %s()" % corr)
+            _final_checks(ctx, asig, cur, dt, " after %s" % corr)
 
 
 def _final_checks(ctx, asig, a, dt, tag):
